@@ -375,8 +375,10 @@ func runCheck(sp *spec, tier string, extra []string) int {
 			m.Counters[k] += v
 		}
 		for k, v := range r.Scenarios {
-			if _, ok := m.Scenarios[k]; !ok {
+			if old, ok := m.Scenarios[k]; !ok {
 				m.Scenarios[k] = v
+			} else {
+				mergeScenario(old, v)
 			}
 		}
 		if r.Rule != "" {
@@ -724,4 +726,43 @@ func raceReports(id, stderr string) []hc.Violation {
 		}
 	}
 	return out
+}
+
+// mergeScenario folds another shard's breadth-first summary of the same scenario into the one
+// already recorded: shards own disjoint level-2 subtrees, so counts add up, the search is
+// exhausted only if every shard's slice was, and it was cut short if any shard's was.
+func mergeScenario(dst, src interface{}) {
+	d, ok1 := dst.(map[string]interface{})
+	s, ok2 := src.(map[string]interface{})
+	if !ok1 || !ok2 {
+		return
+	}
+	dp, ok1 := d["new_states_per_depth"].([]interface{})
+	sp, ok2 := s["new_states_per_depth"].([]interface{})
+	if !ok1 || !ok2 {
+		return
+	}
+	num := func(x interface{}) float64 { f, _ := x.(float64); return f }
+	for _, k := range []string{"states", "transitions"} {
+		d[k] = num(d[k]) + num(s[k])
+	}
+	if num(s["max_depth"]) > num(d["max_depth"]) {
+		d["max_depth"] = s["max_depth"]
+	}
+	for i, x := range sp {
+		if i < len(dp) {
+			dp[i] = num(dp[i]) + num(x)
+		} else {
+			dp = append(dp, x)
+		}
+	}
+	d["new_states_per_depth"] = dp
+	if a, ok := d["frontier_exhausted"].(bool); ok {
+		b, _ := s["frontier_exhausted"].(bool)
+		d["frontier_exhausted"] = a && b
+	}
+	if a, ok := d["stopped_early"].(bool); ok {
+		b, _ := s["stopped_early"].(bool)
+		d["stopped_early"] = a || b
+	}
 }
